@@ -37,6 +37,16 @@ impl Lockfile {
     fn _lock<P: AsRef<Path>>(path: P, what: libc::c_int) -> Result<Option<Self>, Error> {
         // Hold ACTIVELY_LOCKING during the entire lock protocol.
         let mut lock_table = ACTIVELY_LOCKING.lock().unwrap();
+        // NOTE:  Consult the table before opening the file.  Closing any descriptor of a file
+        // releases every fcntl lock the process holds on that file, so a process that already
+        // holds this lock must never open (and then drop) a second descriptor for it.
+        if let Ok(metadata) = std::fs::metadata(path.as_ref()) {
+            for (dev, ino) in lock_table.iter() {
+                if *dev == metadata.dev() && *ino == metadata.ino() {
+                    return Ok(None);
+                }
+            }
+        }
         // Open the lock.  It doesn't matter if the lock file already exists.
         let file = OpenOptions::new()
             .read(true)
